@@ -43,6 +43,8 @@ extern void (*sched_on_wait_return)(int tid, struct env_wait *w, int n);
 extern long sched_max_points;
 /* 1 (default): a signal handler runs as one atomic scheduler step; 0: its lock operations are scheduling points */
 extern int sched_signal_atomic;
+/* 1: every kernel wait may be interrupted (EINTR) as an MC_FAULT choice */
+extern int sched_fault_eintr;
 extern long sched_points;
 
 /* queue a signal for thread tid; it is delivered by that thread itself
